@@ -48,6 +48,8 @@ def table_for(prog, A, fids, effect_pred, write_pred=None):
                     dsc, pos = guards.bool_desc(cb, Sc, 0, 2)
                     if dsc in ("flag", "expr"):
                         continue
+                    if pos and re.fullmatch(r"eq\((arg\d+, arg1\.#\d+|arg1\.#\d+, arg\d+)\)", dsc):
+                        continue        # `|e| e == x`: plain membership, the same test as `contains(&x)` (see guards.canon_test)
                     rows.append(["predicate closure", [dsc if pos else "!(" + dsc + ")"]])
         if rows:
             key = re.sub(r"\{closure#\d+\}", "{closure}", mir.strip_generics(fid))     # closure numbering is positional
